@@ -104,7 +104,39 @@ def _int_geo(rng, n):
     return out, {'family': 'int_geo', 'k': 1}
 
 
-FAMILIES = {'int_geo': _int_geo, 'geo': _geo, 'geo_clean': _geo_clean, 'const': _const, 'random': _random,
+_TIES = [(10001.0, -20000.0, 0.5), (10001.0, -40000.0, 0.25), (10001.0, -50000.0, 0.2),
+         (5000.5, -10000.0, 0.5), (10001.0, 20000.0, -0.5), (-9999.0, -12500.0, -0.8)]
+
+
+def _threshold(rng, n):
+    """First three terms on (or within a few ulps of) a decision threshold of the guards: the
+    irregular-behaviour test |sss*e_1| <= 1e-4 and the convergence tests |delta| <= eps*scale."""
+    r = rng.random()
+    if r < 0.3:
+        L, a, q = rng.choice(_TIES)
+        sc = 2.0 ** rng.randint(-20, 20)
+        terms = [sc * (L + a * q ** i) for i in range(max(n, 3))]
+        return terms[:max(n, 3)], {'family': 'threshold_tie'}
+    s0 = rng.uniform(-10, 10) * 10 ** rng.randint(-3, 3)
+    s1 = rng.uniform(-10, 10) * 10 ** rng.randint(-3, 3)
+    if s1 == s0 or s1 == 0.0:
+        s1 = s0 + 1.0
+    if r < 0.75:
+        d3 = s1 - s0
+        inv = 1.0 / d3 + rng.choice([-1, 1]) * 1e-4 / abs(s1)
+        s2 = s1 + (1.0 / inv if inv != 0.0 else 1.0)
+    else:
+        s2 = s1 * (1.0 + rng.choice([-1, 1]) * EPS * rng.choice([0.5, 1.0, 2.0]))   # convergence edge
+    for _ in range(rng.randint(0, 3)):
+        s2 = math.nextafter(s2, rng.choice([-math.inf, math.inf]))
+    terms = [s0, s1, s2]
+    q = rng.uniform(-0.9, 0.9)
+    while len(terms) < n:
+        terms.append(terms[-1] + (terms[-1] - terms[-2]) * q)
+    return [t if math.isfinite(t) else 0.0 for t in terms], {'family': 'threshold'}
+
+
+FAMILIES = {'threshold': _threshold, 'int_geo': _int_geo, 'geo': _geo, 'geo_clean': _geo_clean, 'const': _const, 'random': _random,
             'divergent': _divergent, 'series': _series}
 
 
@@ -167,7 +199,8 @@ def make_stream(rng, n, families):
 def generate(run_seed, mode='seq'):
     rng = random.Random(run_seed)
     fams = rng.choice([['geo'], ['geo', 'geo_clean'], ['geo_clean', 'const'], sorted(FAMILIES),
-                       sorted(FAMILIES), ['random'], ['series', 'divergent'], ['geo_clean']])
+                       sorted(FAMILIES), ['random'], ['series', 'divergent'], ['geo_clean'],
+                       ['threshold'], ['threshold', 'geo']])
     small_tables = rng.random() < 0.5
     long_streams = rng.random() < (0.25 if mode == 'seq' else 0.05)
     p_eps = rng.choice([0.0, 0.3, 0.5, 1.0])
@@ -544,7 +577,10 @@ def check_dea(terms, recs, extra, limexp):
             near_conv = abs(d2) <= 10 * tol2 or abs(d3) <= 10 * tol3
         else:
             near_conv = True
-        if not borderline and math.isfinite(r3):
+        # (no borderline band: Dea and dea3 evaluate the same guard expressions on the same doubles -
+        # the subnormal extra terms of either formula are absorbed - so they must agree even on an
+        # exact tie of a threshold; measured: 0 disagreements in 200 000 triples within 3 ulps)
+        if math.isfinite(r3):
             cnt['dea3_checked'] += 1
             tol = 1e-9 * max(scale, abs(r3))
             if not abs(res - r3) <= tol:
